@@ -252,7 +252,43 @@ func (c *Ctx) perFileCallbacks(cmd *Command) []*ssa.Function {
 
 // unwrapBound: the method behind a bound-method wrapper (walker.visit handed to WalkDir).
 func unwrapBound(fn *ssa.Function) *ssa.Function {
-	if fn == nil || !strings.Contains(fn.Synthetic, "bound method wrapper") {
+	if fn == nil {
+		return fn
+	}
+	// a callback that only delegates: func(p, d, err) error { return visit(p, d, err, more...) }
+	if !strings.Contains(fn.Synthetic, "bound method wrapper") && len(fn.Blocks) == 1 {
+		if r, ok := fn.Blocks[0].Instrs[len(fn.Blocks[0].Instrs)-1].(*ssa.Return); ok && len(r.Results) == 1 {
+			if call, ok := r.Results[0].(*ssa.Call); ok {
+				if sf := staticFn(&call.Call); sf != nil && len(sf.Blocks) > 0 && sf != fn {
+					passed := 0
+					for _, p := range fn.Params {
+						for _, a := range call.Call.Args {
+							if a == ssa.Value(p) {
+								passed++
+								break
+							}
+						}
+					}
+					onlyCall := true
+					for _, in := range fn.Blocks[0].Instrs {
+						switch in.(type) {
+						case *ssa.Call, *ssa.Return, *ssa.UnOp, *ssa.DebugRef, *ssa.FieldAddr, *ssa.MakeInterface:
+						default:
+							onlyCall = false
+						}
+						if c2, ok := in.(*ssa.Call); ok && c2 != call {
+							onlyCall = false
+						}
+					}
+					if passed == len(fn.Params) && onlyCall {
+						return unwrapBound(sf)
+					}
+				}
+			}
+		}
+		return fn
+	}
+	if !strings.Contains(fn.Synthetic, "bound method wrapper") {
 		return fn
 	}
 	var target *ssa.Function
